@@ -43,6 +43,7 @@ var (
 	tracebackBlacklist = map[string]bool{
 		"pgregory.net/rapid.(*customGen[...]).maybeValue.func1": true,
 		"pgregory.net/rapid.runAction.func1":                    true,
+		"pgregory.net/rapid.(*T).runCleanupFunc.func1":          true,
 	}
 )
 
@@ -386,7 +387,14 @@ func runProp(t *T, prop func(*T)) (err *testError) {
 	if t.tbLog {
 		t.tb.Helper()
 	}
-	defer func() { err = panicToError(recover(), 3) }()
+	defer func() {
+		err = panicToError(recover(), 3)
+		// Invalid data raised by a cleanup function (usually a call of Skip) makes the test case
+		// invalid only if nothing else ended it.
+		if id := t.takeSkipped(); id != nil && err == nil {
+			err = &testError{data: *id}
+		}
+	}()
 
 	defer t.cleanup()
 	prop(t)
@@ -537,6 +545,7 @@ type T struct {
 	cancelCtx context.CancelFunc
 	cleanups  []func()
 	cleaning  atomic.Bool
+	skipped   *invalidData // invalid data raised by a cleanup function, see runCleanupFunc
 
 	tbLog    bool
 	rawLog   *log.Logger
@@ -696,7 +705,45 @@ func (t *T) cleanup() {
 			break
 		}
 
-		cleanup()
+		t.runCleanupFunc(cleanup)
+	}
+}
+
+// runCleanupFunc runs one cleanup function. Invalid data raised by it (usually a call of Skip)
+// ends the function but is only recorded: as a panic it would replace the panic of a failure
+// that is still unwinding, and the falsified test case would be taken for an invalid one.
+func (t *T) runCleanupFunc(f func()) {
+	defer func() {
+		r := recover()
+		if id, ok := r.(invalidData); ok {
+			t.mu.Lock()
+			t.skipped = &id
+			t.mu.Unlock()
+		} else if r != nil {
+			panic(r)
+		}
+	}()
+
+	f()
+}
+
+// takeSkipped returns (and forgets) the invalid data recorded by runCleanupFunc.
+func (t *T) takeSkipped() *invalidData {
+	t.mu.Lock()
+	defer t.mu.Unlock()
+
+	id := t.skipped
+	t.skipped = nil
+	return id
+}
+
+// cleanupCustom is the cleanup of the T of a Custom generator function (and of Example): invalid
+// data raised by a cleanup function rejects the attempt unless the function is failing.
+func (t *T) cleanupCustom(failing *bool) {
+	t.cleanup()
+
+	if id := t.takeSkipped(); id != nil && !*failing {
+		panic(*id)
 	}
 }
 
